@@ -27,7 +27,8 @@ class P:
     def has(self, op):
         """implemented (not `unimplemented!()` / no-op)"""
         if op == "lut":
-            return self.name in LUT_PANELS
+            # every driver whose set_lut accepts a mode (uploads tables, stores the mode, or ignores it)
+            return self.ops.get("lutsel", False)
         if op == "refresh":
             return self.name == "epd2in13_v2"
         return self.ops.get(op, False)
